@@ -1,5 +1,6 @@
 import Ufo2ftModel.Drv.GeomJ
 import Ufo2ftModel.Spec.C09
+import Ufo2ftModel.Spec.C09Hyp
 namespace Ufo2ft.Drv.C09
 open Lean Ufo2ft Ufo2ft.Drv Ufo2ft.C09
 
@@ -48,8 +49,25 @@ def family (req : Json) : R Reply := do
   | .error e => return { model := Json.mkObj [("err", gerrJ e)], holds := true }
   | .ok o =>
     let model := Json.mkObj [("err", Json.null), ("pre", optJ mastersJ o.beforeCu2qu), ("final", mastersJ o.final)]
+    -- the decidable hypotheses of the pipeline-level theorems (Props/C09Pipe.lean), evaluated on this family
+    let hs : List (String × Bool) := [
+      ("wfSrc", wfSrc src), ("heightsBelow", heightsBelow src), ("locsOk", locsOk cfg),
+      ("fullMastersFull", fullMastersFull cfg src), ("notdefOk", notdefOk cfg src), ("notdefJoint", notdefJoint cfg src),
+      ("cu2quOk", cu2quOk cfg o.beforeCu2qu), ("uniformCustom", uniformCustom cfg), ("ordersCover", ordersCover cfg src),
+      ("noSentinels", noSentinels src), ("alike", alike src), ("signsEqualNonzero", signsEqualNonzero src),
+      ("signStable", signStable src), ("instPlain", instPlain cfg), ("cu2quAlike", cu2quAlike cfg o.beforeCu2qu),
+      ("orderTopo", orderTopo cfg src)]
+    let get := fun (k : String) => (hs.find? (fun e => e.1 == k)).map (·.2) |>.getD false
+    let sparseApplies := get "wfSrc" && get "heightsBelow" && get "locsOk" && get "fullMastersFull" && get "notdefOk" && get "cu2quOk"
+    let twoApplies := cfg.ttf && cfg.inst.isNone && get "uniformCustom" && get "wfSrc" && get "noSentinels" &&
+      get "ordersCover" && get "cu2quOk" && get "notdefJoint"
+    let instApplies := cfg.inst.isSome && get "instPlain" && get "wfSrc" && get "alike" && get "signStable" &&
+      get "orderTopo" && get "cu2quAlike"
+    let hypInfo := Json.mkObj ((hs.map (fun e => (e.1, Json.bool e.2))) ++
+      [("C09_sparse", Json.bool sparseApplies), ("C09_twoByTwo", Json.bool twoApplies),
+       ("C09_pipeline_inst_partial", Json.bool instApplies)])
     match oerr with
-    | some _ => return { model, holds := true }
+    | some _ => return { model, holds := true, info := Json.mkObj [("hyp", hypInfo)], hyp := Json.bool sparseApplies }
     | none =>
       let final ← asMasters (← field obs "final")
       let compiled ← asList (asList asCGlyph) (← field obs "compiled")
@@ -68,8 +86,8 @@ def family (req : Json) : R Reply := do
       let info := Json.mkObj [("failed", strsJ failed), ("srcCompatible", Json.bool (compatible src)),
         ("srcCompCompatible", Json.bool (compCompatible src)),
         ("cu2quContract", Json.bool cu2quOk), ("bad", strsJ (badNames final)),
-        ("badCompiled", strsJ (badCompiled compiled))]
-      return { model, holds := failed.isEmpty, info }
+        ("badCompiled", strsJ (badCompiled compiled)), ("hyp", hypInfo)]
+      return { model, holds := failed.isEmpty, info, hyp := Json.bool sparseApplies }
 
 /-- op "needs": in = {masters}; obs = sorted names `check_for_nonmatching_components` leaves in needs_decomposition -/
 def needs (req : Json) : R Reply := do
